@@ -100,6 +100,7 @@ class Inliner:
         self.cross = cross or set()
         self.generated: Set[str] = set()
         self.results: Set[str] = set()
+        self.optional_results: Set[str] = set()
 
     def helper(self, call: ast.Call) -> Optional[ast.FunctionDef]:
         if self.methods and isinstance(call.func, ast.Attribute) and \
@@ -158,6 +159,8 @@ class Inliner:
         result = pre + 'result'
         self.generated |= set(mp.values()) | {result}
         self.results.add(result)
+        if fn.returns is not None and ast.unparse(fn.returns).startswith('Optional['):
+            self.optional_results.add(result)
         params = [a.arg for a in fn.args.posonlyargs + fn.args.args]
         is_method = isinstance(call.func, ast.Attribute)
         if is_method:
@@ -226,6 +229,20 @@ class Inliner:
             for h in s.handlers:
                 h.body = self.block(h.body, depth)
         call_sites: List[ast.Call] = []
+        if isinstance(s, ast.If):
+            # a helper call that is evaluated first, unconditionally, in the test
+            t = s.test
+            while True:
+                if isinstance(t, ast.UnaryOp) and isinstance(t.op, ast.Not):
+                    t = t.operand
+                elif isinstance(t, ast.BoolOp):
+                    t = t.values[0]
+                elif isinstance(t, ast.Compare):
+                    t = t.left
+                else:
+                    break
+            if isinstance(t, ast.Call):
+                call_sites = [t]
         if isinstance(s, ast.Expr) and isinstance(s.value, ast.Call):
             call_sites = [s.value]
         elif isinstance(s, ast.Return) and isinstance(s.value, ast.Call):
@@ -277,7 +294,7 @@ class Inliner:
         fn = copy.deepcopy(self.func.node)
         fn.body = self.block(fn.body, self.depth)
         if self.inlined:
-            if split_optional_results(fn, self.results):
+            if split_optional_results(fn, self.results, self.optional_results):
                 self.generated |= {n.id for n in ast.walk(fn) if isinstance(n, ast.Name)
                                    and '_p' in n.id and n.id.rsplit('_p', 1)[0] in self.generated}
             propagate_copies(fn, self.generated)
@@ -652,7 +669,8 @@ def _fold(stmts: List[ast.stmt], env: Dict[str, str]) -> List[ast.stmt]:
     return out
 
 
-def split_optional_results(fn: ast.FunctionDef, results: Set[str]) -> bool:
+def split_optional_results(fn: ast.FunctionDef, results: Set[str],
+                           declared_optional: Optional[Set[str]] = None) -> bool:
     """For a helper result R that is None on some paths and a value on others, the rest of
     the block is duplicated into the paths (tail duplication), R and the locals private to
     the duplicated part are renamed apart per path, and tests of R against None are folded.
@@ -689,15 +707,19 @@ def split_optional_results(fn: ast.FunctionDef, results: Set[str]) -> bool:
                     blk[i] = ast.copy_location(
                         ast.If(s.value.test, [mk(s.value.body)], [mk(s.value.orelse)]), s)
         target = None
+        total = sum(1 for n in ast.walk(fn) if isinstance(n, ast.Name) and n.id == R
+                    and isinstance(n.ctx, ast.Store))
+        best = None
         for blk in blocks(fn):
             idx = [i for i, s in enumerate(blk) if R in _stores(s)]
-            if idx and len({id(n) for i in idx for n in ast.walk(blk[i])
-                            if isinstance(n, ast.Name) and n.id == R
-                            and isinstance(n.ctx, ast.Store)}) >= 2:
-                # the outermost block holding all the stores
-                if target is None or len(blk) > 0:
-                    target = (blk, idx)
-                break
+            cnt = len({id(n) for i in idx for n in ast.walk(blk[i])
+                       if isinstance(n, ast.Name) and n.id == R
+                       and isinstance(n.ctx, ast.Store)})
+            if idx and cnt == total and cnt >= 2:
+                # the innermost block holding all the stores
+                size = sum(1 for i in idx for _ in ast.walk(blk[i]))
+                if best is None or size < best:
+                    best, target = size, (blk, idx)
         if target is None:
             continue
         blk, idx = target
@@ -708,8 +730,16 @@ def split_optional_results(fn: ast.FunctionDef, results: Set[str]) -> bool:
         init_none = any(isinstance(blk[i], ast.Assign) and _is_none(blk[i].value)
                         for i in idx[:-1])
         inside = {id(n) for s in cont for n in ast.walk(s)}
+        comp_bound: Set[int] = set()
+        for comp in ast.walk(fn):
+            if isinstance(comp, (ast.ListComp, ast.SetComp, ast.GeneratorExp, ast.DictComp)):
+                tn = {x.id for g in comp.generators for x in ast.walk(g.target)
+                      if isinstance(x, ast.Name)}
+                for x in ast.walk(comp):
+                    if isinstance(x, ast.Name) and x.id in tn:
+                        comp_bound.add(id(x))
         outside_names = {n.id for n in ast.walk(fn) if isinstance(n, ast.Name)
-                         and id(n) not in inside}
+                         and id(n) not in inside and id(n) not in comp_bound}
         private = {n for n in _stores(cont) if n not in outside_names}
         size = sum(1 for s in cont for _ in ast.walk(s) if isinstance(_, ast.stmt))
 
@@ -749,6 +779,8 @@ def split_optional_results(fn: ast.FunctionDef, results: Set[str]) -> bool:
             env: Dict[str, str] = dict(path_env)
             kv = _known(value, path_env) if value is not None else \
                 ('none' if init_none else None)
+            if kv is None and value is not None and declared_optional and R in declared_optional:
+                kv = 'some'     # declared Optional[T]: what is returned besides None is a T
             if kv is not None:
                 env[mp[R]] = kv
             return mp[R], _fold(body, env)
